@@ -7,6 +7,12 @@ CLAIMED = {
  "C03": {"ref": "DESIGN.md section 3 C03",
          "text": "Same store-level simulation as C01 over one to three stores sharing the allocator; oracles at quiescent points: alloc.Bytes() equals the total size of live piece buffers, Count()/Bytes() agree with them, a sequential Expire reaches its target evicting least-recently-used first and reports exactly the complete pieces it dropped, Del releases everything and nothing is allocated afterwards; the memory manager never panics.",
          "note": NOTE},
+ "C04": {"ref": "DESIGN.md section 3 C04",
+         "text": "The real protocol.Read (directly, with exact consumption accounting on its bufio.Reader, and through the real protocol.Reader goroutine) consumes generated streams over a simulated connection: valid frames from an independent encoder, frames with altered announced lengths (0..2^32-1), every id with random payloads, hostile bencode, delivered whole / cut at any byte / byte-at-a-time, ending in EOF or reset at any byte. Oracles per call: message xor error, never (nil,nil); exactly 4+length bytes consumed on success; never beyond the frame on error; frames above 1 MiB refused after 4 bytes; decoded message equals the independent reference decoder's; heap allocated during the call bounded by 512 KiB + 8 x announced length. The input dimension is sampled by a seeded structured generator, not enumerated; the simulator owns the stream (segmentation, truncation, failure).",
+         "note": NOTE},
+ "C06": {"ref": "DESIGN.md section 3 C06",
+         "text": "Generated sequences of every message protocol.Write can emit go through a real protocol.Writer goroutine, a simulated connection with seeded segmentation/back-pressure and a real protocol.Reader goroutine; a wire tap feeds an independent codec. Oracles: storrent decodes its own stream back to the same sequence; the independent strict decoder cuts the byte stream into the same frames and (byte-identical or strictly decoded) the same content; the independent encoder's bytes for the same messages, partly handed over as pre-read 'init' bytes, decode in storrent to the same sequence under any cut pattern.",
+         "note": NOTE},
 }
 
 PENDING = "check not built yet in this session (design in DESIGN.md section 3); not claimed until its scenario and oracles exist"
@@ -14,5 +20,5 @@ NOT_APPLICABLE = {
  "C13": "pure function of an input byte string (ReadTorrent/ReadMagnet/WriteTorrent): no schedule, clock, fault or second party for a simulator to own; see DESIGN.md section 4",
  "C20": "pure function of the file table and the lookup path: no schedule, clock, fault or second party; see DESIGN.md section 4",
 }
-for p in ["C02","C04","C05","C06","C07","C08","C09","C10","C11","C12","C14","C15","C16","C17","C18","C19"]:
+for p in ["C02","C05","C07","C08","C09","C10","C11","C12","C14","C15","C16","C17","C18","C19"]:
     NOT_APPLICABLE[p] = PENDING
